@@ -46,20 +46,27 @@ theorem step_rep {σ : Store} {R : Rings} (rep : Rep σ R) (op : Op) (hv : valid
     simp only [valid, decide_eq_true_eq] at hv
     exact ⟨_, Rep_unlink rep hv⟩
   | moveCtor e' e =>
-    simp only [valid, Bool.and_eq_true, decide_eq_true_eq, Bool.not_eq_true'] at hv
-    exact ⟨_, Rep_ctorMove rep hv.1.2 hv.2 hv.1.1 (Or.inl ⟨e', rfl⟩)⟩
+    simp only [valid, Bool.and_eq_true, decide_eq_true_eq] at hv
+    cases hal : alone R (.elem e) with
+    | true =>
+      have := Rep_ctorMove_alone rep hv.2 hal hv.1
+      exact ⟨_, this.1, by simpa [Spec.step, hal] using this.2⟩
+    | false =>
+      have := Rep_ctorMove rep hv.2 hal hv.1 (Or.inl ⟨e', rfl⟩)
+      exact ⟨_, this.1, by simpa [Spec.step, hal] using this.2⟩
   | moveAssign a b =>
-    simp only [valid, Bool.and_eq_true, decide_eq_true_eq, Bool.or_eq_true, Bool.not_eq_true'] at hv
+    simp only [valid, Bool.and_eq_true, decide_eq_true_eq] at hv
     by_cases e : b = a
     · subst e
       exact ⟨σ, by simp [step, baseAssignMove], by simpa [Spec.step] using rep⟩
-    · have hal : alone (eraseNode R (.elem a)) (.elem b) = false := by
-        rcases hv.2 with h | h
-        · exact (e h).elim
-        · exact h
-      have hne : Node.elem b ≠ Node.elem a := fun h => e (by cases h; rfl)
-      have := Rep_assignMove rep hv.1.1 hv.1.2 hne hal (Or.inl ⟨a, rfl⟩)
-      exact ⟨_, this.1, by simpa [Spec.step, e] using this.2⟩
+    · have hne : Node.elem b ≠ Node.elem a := fun h => e (by cases h; rfl)
+      cases hal : alone (eraseNode R (.elem a)) (.elem b) with
+      | true =>
+        have := Rep_assignMove_alone rep hv.1 hv.2 hne hal
+        exact ⟨_, this.1, by simpa [Spec.step, e, hal] using this.2⟩
+      | false =>
+        have := Rep_assignMove rep hv.1 hv.2 hne hal (Or.inl ⟨a, rfl⟩)
+        exact ⟨_, this.1, by simpa [Spec.step, e, hal] using this.2⟩
   | listMoveCtor k' k =>
     simp only [valid, Bool.and_eq_true, decide_eq_true_eq] at hv
     have rep' := Rep_ctorDefault rep hv.1
